@@ -471,6 +471,11 @@ impl RunOutput {
         }
     }
     pub fn require_nonzero(&mut self, k: &str) {
+        // a run that hit its wall cap reports what it completed (exhaustive=false); the vacuity guards
+        // describe the complete enumeration and do not apply to a truncated one
+        if self.coverage.get("exhaustive").and_then(|v| v.as_bool()) == Some(false) {
+            return;
+        }
         if self.get(k) == 0 {
             self.machinery_errors.push(format!("vacuity guard: counter `{k}` is zero"));
         }
